@@ -218,6 +218,11 @@ def _load_variant(prop: str, name: str) -> dict:
     for v in mod.VARIANTS:
         if v["name"] == name:
             return v
+    from .variants import common
+
+    for v in common.COMMON:
+        if v["name"] == name:
+            return v
     raise KeyError(name)
 
 
@@ -226,7 +231,9 @@ def run_variants(prop: str, repo: str, seed: int, jobs: int = 16) -> dict:
         mod = importlib.import_module("synlint.variants.%s" % prop.lower())
     except ModuleNotFoundError:
         return {"armed_ok": 0, "benign_ok": 0, "failures": ["no variant corpus for %s" % prop], "variants": []}
-    variants = list(mod.VARIANTS) + [{"name": n, "kind": "benign", "file": "synrbl/__init__.py"} for n in GLOBAL_VARIANTS]
+    from .variants import common
+
+    variants = list(mod.VARIANTS) + [{"name": n, "kind": "benign", "file": "synrbl/__init__.py"} for n in GLOBAL_VARIANTS] + list(common.COMMON)
     rnd = random.Random(seed)
     rnd.shuffle(variants)
     base, rc, tail = _findings(prop, repo)
